@@ -884,6 +884,74 @@ pub fn fuzz_campaign(target: &str, runs_per_job: usize, jobs: usize, seed: u64) 
     out
 }
 
+/// E5: the sequential generators under Miri (sanitizer back-end). Which part serves a property.
+pub fn miri_part_of(id: &str) -> Option<(&'static str, usize)> {
+    match id {
+        "C14" => Some(("C14seq", 5)),
+        "C15" => Some(("C15kinds", 30)),
+        "C16" => Some(("C16seq", 15)),
+        "C17" => Some(("C17seq", 15)),
+        "C20" => Some(("C20serde", 15)),
+        _ => None,
+    }
+}
+
+#[derive(Default, Debug)]
+pub struct MiriOut {
+    pub available: bool,
+    pub note: String,
+    pub runs: usize,
+    pub jobs: usize,
+    pub violations: Vec<String>,
+}
+
+/// `cargo +nightly miri run --bin vmiri` on `jobs` seeds in parallel; undefined behaviour reported by
+/// Miri (or an oracle failure) is a violation whose replay is the last case printed.
+pub fn miri_campaign(id: &str, part: &str, per_job: usize, jobs: usize, seed: u64) -> MiriOut {
+    let mut out = MiriOut { jobs, ..Default::default() };
+    let hdir = format!("{}/harness", verif_dir());
+    let mk = |n: usize, sd: u64| {
+        let mut c = std::process::Command::new("cargo");
+        c.args(["+nightly", "miri", "run", "--release", "--bin", "vmiri", "--", part, &n.to_string(), &sd.to_string()]).env("MIRIFLAGS", "-Zmiri-permissive-provenance").env("CARGO_NET_OFFLINE", "true").current_dir(&hdir);
+        c
+    };
+    // build once (0 cases)
+    let b = mk(0, 0).output();
+    if !matches!(&b, Ok(o) if o.status.success()) {
+        out.note = format!("cargo miri build failed: {}", b.map(|o| String::from_utf8_lossy(&o.stderr).lines().rev().take(2).collect::<Vec<_>>().join(" | ")).unwrap_or_else(|e| e.to_string()));
+        return out;
+    }
+    out.available = true;
+    let mut children = Vec::new();
+    for j in 0..jobs {
+        let logp = format!("{}/work/miri-{}-j{}.log", verif_dir(), part, j);
+        let log = std::fs::File::create(&logp).unwrap();
+        let log2 = log.try_clone().unwrap();
+        if let Ok(ch) = mk(per_job, seed.wrapping_mul(31).wrapping_add(j as u64 + 1)).stdout(log).stderr(log2).spawn() {
+            children.push((ch, logp));
+        }
+    }
+    for (mut ch, logp) in children {
+        let st = ch.wait().ok();
+        let text = std::fs::read_to_string(&logp).unwrap_or_default();
+        out.runs += text.lines().filter(|l| l.starts_with("CASE ")).count();
+        let ok = st.map(|s| s.success()).unwrap_or(false);
+        if !ok {
+            let last = text.lines().filter(|l| l.starts_with("CASE ")).last().unwrap_or("");
+            let case_json = last.splitn(4, ' ').nth(3).unwrap_or("null");
+            let why = text.lines().find(|l| l.contains("Undefined Behavior") || l.starts_with("ORACLE")).unwrap_or("Miri stopped the program").to_string();
+            let rp = Replay2 { property: id.into(), oracle: "E5-miri".into(), msg: format!("{} (reproduce: cd harness && MIRIFLAGS=-Zmiri-permissive-provenance cargo +nightly miri run --release --bin vmiri, or vcheck replay for the oracle part)", why), engine: part.into(), tree_rev: tree_rev(), case: serde_json::from_str(case_json).unwrap_or(Value::Null) };
+            let dir = format!("{}/work/replays", verif_dir());
+            let _ = std::fs::create_dir_all(&dir);
+            let path = format!("{}/miri-{}-{:016x}.json", dir, part, hash_json(&rp.case));
+            std::fs::write(&path, serde_json::to_string_pretty(&rp).unwrap()).unwrap();
+            out.violations.push(format!("oracle E5-miri : {}", why.trim()));
+            out.violations.push(format!("VIOLATION property={} replay={}", id, path));
+        }
+    }
+    out
+}
+
 pub fn parent(id: &str, tier: &str) -> i32 {
     let t0 = Instant::now();
     let seed = default_seed();
@@ -979,6 +1047,24 @@ pub fn parent(id: &str, tier: &str) -> i32 {
                 rules.push(format!("[E4 {}] libFuzzer (cargo-fuzz, nightly, ASan) on bytes decoded constructively into the same case types; {} jobs x {} runs, seed corpus = empty input + 8 pseudo-random strings per job; the same oracles run inside the target", target, jobs, runs));
             }
             per_part.insert(format!("E4:{}", target), json!({"available": f.available, "note": f.note, "runs": f.runs, "jobs": f.jobs, "corpus_units_coverage_increasing": f.corpus_units, "edge_coverage": f.coverage, "violations": f.violations.len()}));
+        }
+    }
+    // E5: the sequential generators under Miri (thorough tier only)
+    if thorough && violations == 0 {
+        if let Some((part, per_job)) = miri_part_of(id) {
+            let per_job = std::env::var("VCHECK_MIRI_CASES").ok().and_then(|s| s.parse().ok()).unwrap_or(per_job);
+            let m = miri_campaign(id, part, per_job, 8, seed);
+            if m.available {
+                evaluations += m.runs;
+                for v in &m.violations {
+                    println!("{}", v);
+                    if v.starts_with("VIOLATION") {
+                        violations += 1;
+                    }
+                }
+                rules.push(format!("[E5 miri {}] the same proptest generator, 8 jobs x {} cases, executed by Miri (permissive provenance): undefined behaviour on the real Arc/Rc/Weak paths is a violation even when no count or identity changes", part, per_job));
+            }
+            per_part.insert(format!("E5:miri:{}", part), json!({"available": m.available, "note": m.note, "cases": m.runs, "jobs": m.jobs, "violations": m.violations.len() / 2}));
         }
     }
     let wall = t0.elapsed().as_secs_f64();
